@@ -23,14 +23,34 @@ def gen_case(rng):
         ws = {t: rng.choice([1.5, 2.0, -1.0, 3.0]) / max(1, len(kid["tickers"])) for t in kid["tickers"]}
         kid["stack"] = [kid["stack"][0], ["WeighSpecified", ws], ["Rebalance"]]
         spec["levered_child"] = True
+    elif rng.random() < 0.25:
+        # levered ROOT on a crash path: the real tree goes bankrupt while the children's shadow copies must carry on
+        spec2 = R.gen_run_spec(rng, nested=True, crash=True, calendar_children=True)
+        names = [k["name"] for k in spec2["tree"]["kids"]] + list(spec2["tree"]["tickers"] or [])
+        lev = rng.choice([2.0, 3.0, 4.0, 6.0])
+        ws = {nm: lev / len(names) for nm in names}
+        spec2["tree"]["stack"] = [["RunDaily", True, False, False], ["WeighSpecified", ws], ["Rebalance"]]
+        for kid in spec2["tree"]["kids"]:
+            kid["stack"] = [["RunDaily", True, False, False], ["SelectAll"], ["WeighEqually"], ["Rebalance"]]
+        spec2["levered_root"] = True
+        return spec2
     return spec
 
 
 def standalone_spec(spec, kid):
     s = copy.deepcopy(spec)
-    s["tree"] = {"name": kid["name"], "tickers": kid["tickers"], "kids": [], "stack": kid["stack"]}
+    s["tree"] = {"name": kid["name"], "tickers": kid["tickers"], "kids": copy.deepcopy(kid.get("kids", [])), "stack": kid["stack"]}
     s["capital"] = 1000000.0
     return s
+
+
+def sub_specs(tree, path=()):
+    """(path of names, spec node) of every sub-strategy at any depth"""
+    out = []
+    for k in tree.get("kids", []):
+        out.append((path + (k["name"],), k))
+        out += sub_specs(k, path + (k["name"],))
+    return out
 
 
 def run_case(ctx, bt, spec):
@@ -42,8 +62,12 @@ def run_case(ctx, bt, spec):
         return
     ctx.count("nested-completed")
     root = b.strategy
-    for kid in spec["tree"]["kids"]:
-        child = root.children[kid["name"]]
+    for names, kid in sub_specs(spec["tree"]):
+        child = root
+        for nm in names:
+            child = child.children[nm]
+        parent = child.parent
+        depth = len(names)
         try:
             sb, _, _ = R.build_backtest(bt, standalone_spec(spec, kid))
             sb.run()
@@ -54,10 +78,11 @@ def run_case(ctx, bt, spec):
         sp = np.asarray(sb.strategy.prices.values, dtype=float)
         funded = bool(np.any(np.asarray(child._all_flows.values) != 0))
         ctx.count("children-compared")
+        ctx.count("children-compared:depth-%d" % depth)
         ctx.count("child-funded" if funded else "child-never-funded")
         bankrupt = bool(sb.strategy.bankrupt)
-        ctx.classes.add((tuple(kid["stack"][0]), tuple(d[0] for d in kid["stack"][1:]), spec["tree"]["stack"][0][0], spec["integer"], spec["comm"][0], bankrupt, funded))
-        rd = {"spec": spec, "child": kid["name"]}
+        ctx.classes.add((tuple(kid["stack"][0]), tuple(d[0] for d in kid["stack"][1:]), spec["tree"]["stack"][0][0], spec["integer"], spec["comm"][0], bankrupt, funded, depth))
+        rd = {"spec": spec, "child": ">".join(names)}
         if len(cp) != len(sp):
             ctx.violation("C09/length", "child %s has %d index rows, stand-alone %d" % (kid["name"], len(cp), len(sp)), rd)
             continue
@@ -65,11 +90,11 @@ def run_case(ctx, bt, spec):
         if bad:
             i = bad[0]
             key = "C09/index-differs" + (":after-own-bankruptcy" if bankrupt else "")
-            ctx.violation(key, "child %s index on date#%d is %r nested but %r stand-alone (stand-alone bankrupt=%s; first rows nested %r / alone %r)"
-                          % (kid["name"], i, cp[i], sp[i], bankrupt, list(cp[max(0, i - 2):i + 2]), list(sp[max(0, i - 2):i + 2])), rd)
+            ctx.violation(key, "child %s (depth %d) index on date#%d is %r nested but %r stand-alone (stand-alone bankrupt=%s; first rows nested %r / alone %r)"
+                          % (">".join(names), depth, i, cp[i], sp[i], bankrupt, list(cp[max(0, i - 2):i + 2]), list(sp[max(0, i - 2):i + 2])), rd)
             continue
-        col = np.asarray(root._universe[kid["name"]].values, dtype=float)
-        badc = [i for i in range(len(cp)) if not (col[i] == cp[i] or (col[i] != col[i] and i == 0 and False))]
+        col = np.asarray(parent._universe[kid["name"]].values, dtype=float)
+        badc = [i for i in range(len(cp)) if not (col[i] == cp[i])]
         if badc:
             i = badc[0]
             ctx.violation("C09/universe-column", "parent universe column %s on date#%d is %r, child index %r" % (kid["name"], i, col[i], cp[i]), rd)
@@ -140,7 +165,21 @@ def paper_calls_protocol(ctx, bt, n):
     ctx.protocols.append(("paperseq", len(meta), nd))
 
 
+def gen_deep_case(rng):
+    """three strategy levels (root > mid > leaf), securities declared up front, commissions / spreads / integer positions from the
+    run generator: every sub-strategy at every depth is compared with its stand-alone backtest"""
+    from .. import whole_run as W
+    spec = W.gen_spec(rng, nested=True, depth3=True)
+    if spec["comm"][0] == 0 and rng.random() < 0.7:
+        spec["comm"] = rng.choice([[3, 0, 0.001], [2, 0, 0.0078125], [1, 2.0, 0], [5, 1.0, 0.001]])
+    return spec
+
+
 def run(ctx, bt):
+    for _ in range(ctx.scale(25, 500)):
+        spec = gen_deep_case(ctx.rng)
+        ctx.evaluations += 1
+        run_case(ctx, bt, spec)
     for _ in range(ctx.scale(70, 1500)):
         spec = gen_case(ctx.rng)
         ctx.evaluations += 1
